@@ -16,11 +16,11 @@ DEMO=$(ls $SRC/*_test.go 2>/dev/null | head -1)
 RUN=$(grep -ho "func Test[A-Za-z0-9_]*" $DEMO | sed 's/func //' | paste -sd'|')
 cp $DEMO $DEST
 echo "== demo WITHOUT patch ($PKG -run '$RUN')"
-go test -vet=off -count=1 -run "^($RUN)\$" $PKG 2>&1 | tail -3
+go test ${DEMOFLAGS:-} -vet=off -count=1 -run "^($RUN)\$" $PKG 2>&1 | tail -3
 git apply $SRC/patch.diff || { echo "PATCH DOES NOT APPLY"; exit 2; }
 echo "== build"; go build ./... 2>&1 | tail -3
 echo "== demo WITH patch"
-go test -vet=off -count=1 -run "^($RUN)\$" $PKG 2>&1 | tail -4
+go test ${DEMOFLAGS:-} -vet=off -count=1 -run "^($RUN)\$" $PKG 2>&1 | tail -4
 rm -f $DEST
 echo "== existing tests of touched packages WITH patch"
 PKGS=$(git diff --name-only | xargs -n1 dirname | sort -u | sed 's#^#./#; s#$#/#' | paste -sd' ')
